@@ -168,3 +168,9 @@ def r6(ctx):
                    "all raising paths raise protocol/payload exceptions" if not other else
                    f"a path raises {other[0][1]} at {other[0][0].raise_loc}",
                    other[0][0].raise_loc if other else "", {"path": path_text(other[0][0])} if other else None)
+
+
+@rule("R-C05-7", min_instances=2, title="rejection does not poison the connection state: after a refused frame the reader is back at 'expect a header'")
+def r7(ctx):
+    from .c17 import r6 as rejected_frame_consumed
+    rejected_frame_consumed(ctx)
